@@ -17,6 +17,15 @@ import (
 
 const soloBudgetPerTask = 20_000_000
 
+// soloRunBudget bounds the yield points of one whole reference pass (and so,
+// roughly, of one run): many bounded runs beat a few endless ones.
+func soloRunBudget(tier string) int64 {
+	if tier == "thorough" {
+		return 300_000_000
+	}
+	return 40_000_000
+}
+
 var debugSolo = os.Getenv("GEOSIM_DEBUG") != ""
 
 func soloOpBudget(tier string) int64 {
@@ -108,6 +117,7 @@ func taskBody(x *caller, id int, ops []Op, skip []bool, results []*OpResult, hp 
 // excluded from the simulated pass and from comparison (that is C05's
 // business, not C16's).
 func soloPass(s *Spec, pool []geojson.Object, opBudget int64, taskOrder []int) (results [][]*OpResult, steps int64, hps []harnessPanic) {
+	totalBudget := soloRunBudget(s.Tier)
 	results = newTaskResults(s.Tasks)
 	var mu sync.Mutex
 	// operations already seen not to terminate normally in this pass: an
@@ -130,6 +140,13 @@ func soloPass(s *Spec, pool []geojson.Object, opBudget int64, taskOrder []int) (
 			verifsim.SetMode(verifsim.ModeSolo, opBudget)
 			x := &caller{pool: pool, task: t, sim: false}
 			for i := range s.Tasks[t] {
+				if steps+verifsim.Steps() > totalBudget {
+					// the run as a whole is long enough: the remaining operations
+					// of this workload are left out (marked like non-terminating
+					// ones, i.e. skipped in the simulated pass and not compared)
+					results[t][i].Status = StAborted
+					continue
+				}
 				if len(abnormal) > 0 {
 					if st, ok := abnormal[opKey(&s.Tasks[t][i])]; ok {
 						results[t][i].Status = st
